@@ -383,6 +383,20 @@ func RunC12(env *Env, rep *Report) {
 			}
 		}
 	}
+	// numeric case labels / -s values: cases are matched by spelling, so 0x1
+	// or 01 is not the case for the value 1 (and the other way round)
+	for _, kind := range []string{"statements", "text", "movement", "moves", "mart"} {
+		for _, pr := range [][2]string{{"0x1", "1"}, {"01", "1"}, {"1", "0x1"}, {"16", "0x10"}, {"1", "1"}} {
+			for _, d := range []int{0, 1} {
+				t := c12Build(kind, "c", d > 0, false)
+				lbl, val := pr[0], pr[1]
+				t.labels[0].Fixed, t.val.Fixed = &lbl, &val
+				cs := c12Case(t, false)
+				cs.Name += "/numeric:" + lbl + "~" + val
+				cases = append(cases, cs)
+			}
+		}
+	}
 	for _, f := range []string{"c", "b", "cb"} {
 		for _, d := range []int{1, 2} {
 			cases = append(cases, c12Case(c12Build("statements-plain-selected", f, true, d == 2), false))
